@@ -99,13 +99,62 @@ def nontrivial(c, o):
     return "ok" in e[0] and len(e[0]["ok"]["nodes"]) >= 4 and any(len(vs) >= 2 for _, vs in e[0]["ok"]["alts"])
 
 
+GEML_CODING = ["geml.grammars.coding.classes", "geml.grammars.coding.conditions", "geml.grammars.coding.control_flow", "geml.grammars.coding.lists",
+               "geml.grammars.coding.logical_ops", "geml.grammars.coding.numbers"]
+SHIPPED = [   # grammars shipped in geml.grammars, the examples and the tests (real classes, reflected into the model's declarations by the driver)
+    {"modules": ["geml.grammars.sgp"], "start": "Number"},
+    {"modules": ["geml.grammars.sgp", "geml.grammars.basic_math"], "start": "Number"},
+    {"modules": ["geml.grammars.sgp", "geml.grammars.literals"], "start": "Number"},
+    {"modules": ["geml.grammars.sgp", "geml.grammars.basic_math", "geml.grammars.literals"], "start": "Number"},
+    {"modules": ["geml.grammars.letter"], "start": "String"},
+    {"modules": ["geml.grammars.regex"], "start": "RE"},
+    {"modules": ["geml.grammars.symbolic_regression"], "start": "Expression"},
+    {"modules": GEML_CODING, "start": "Statement"},
+    {"modules": ["examples.santafe"], "start": "ActionMain", "considered": ["ActionBlock", "Action", "IfFood", "Move", "Right", "Left"]},
+    {"modules": ["examples.string_match"], "start": "String", "considered": ["LetterString", "Char", "Vowel", "Consonant"]},
+    {"modules": ["examples.binary"], "start": "BinaryList", "considered": ["One", "Zero", "BinaryList"]},
+    {"modules": ["examples.pcfg_example"], "start": "R", "considered": ["A", "B", "C"]},
+    {"modules": ["examples.recurrence"], "start": "Node", "considered": ["Op", "Access", "Literal", "KnowledgeLiteral"]},
+    {"modules": ["examples.tutorial_example"], "start": "Scalar", "considered": ["Value", "ScalarVar", "VectorialVar", "Mean", "CumulativeSum"]},
+    {"modules": ["tests.representations.tree_based.specific_type_mutation_test"], "start": "Root", "considered": ["Concrete", "Middle", "MiddleList", "ConcreteTerm", "RootToConcrete"]},
+    {"modules": ["tests.representations.representations_test"], "start": "Root", "considered": ["IntRangeM", "ListRangeM", "FloatRangeM", "Branch", "Concrete", "ListWrapper"]},
+    {"modules": ["tests.representations.stack.stack_test"], "start": "Root", "considered": ["Concrete", "Middle", "MiddleList"]},
+    {"modules": ["tests.gp.probabilistic_test"], "start": "Option", "considered": ["OptionA", "OptionB"]},
+    {"modules": ["tests.core.grammar_test"], "start": "Root", "considered": ["Leaf", "Rec", "RecAlt"]},
+    {"modules": ["tests.representations.dependent_types_context_test"], "start": "Expr", "considered": ["Let", "Var", "Literal"]},
+]
+
+
+def shipped_phase(chk, replay_case=None):
+    """the shipped grammars: extracted from their real classes, compared with the model on the declaration reflected from those classes"""
+    specs = [dict(s, op="shipped") for s in SHIPPED] if replay_case is None else [dict(replay_case["shipped"], op="shipped")]
+    res = core.run_impl("grammar", {"cases": specs}, timeout=900)
+    if isinstance(res, dict) and res.get("driver_failed"):
+        chk.violation("correspondence", "the shipped grammars could not be extracted: " + res["stderr"][-600:], {"component": "shipped grammars", "stderr": res["stderr"]}, False)
+        return {"attempted": len(specs), "compared": 0, "skipped": {}}
+    cases, outs, skipped = [], [], {}
+    for sp, o in zip(specs, res):
+        oo = o.get("ok", o)
+        if "decl" not in oo:
+            skipped["+".join(sp["modules"])[-60:] + ":" + sp["start"]] = oo.get("unsupported") or f"{oo.get('exc')}: {str(oo.get('msg'))[:80]}"
+            continue
+        cases.append({"op": "extract", "decl": oo["decl"], "times": 1, "usable": "usable" in oo, "shipped": {k: sp[k] for k in ("modules", "start", "considered") if k in sp}, "names": oo["names"]})
+        outs.append({"ok": {k: oo[k] for k in ("extractions", "usable") if k in oo}})
+    o2, corr, orac = flow.differential(chk, "grammar", cases, to_coq, gc.IMPORTS, run_fn="run_c05", describe=lambda c, o: f"shipped grammar {c['shipped']} (classes {c['names']}): " + describe(c, o),
+                                        component="grammar analysis of the shipped grammars", kind=lambda c: c["shipped"]["modules"][-1], chunk=10, coq_regions=("F10", "F35"), precomputed=outs)
+    return {"attempted": len(specs), "compared": len(cases), "skipped": skipped, "correspondence_mismatches": len(corr), "oracle_failures": len(orac),
+            "classes": sum(len(c["decl"]["classes"]) for c in cases)}
+
+
 def run(tier, seed, replay=None):
     chk = core.Check("C05", tier, seed)
     proof = core.proof_step("C05", thorough=(tier == "thorough"))
-    cases = [replay["replay"]["case"]] if replay else gen(seed, tier)
+    ship_replay = bool(replay and replay["replay"].get("case", {}).get("shipped"))
+    shipped_cov = shipped_phase(chk, replay["replay"]["case"] if ship_replay else None) if (ship_replay or not replay) else None
+    cases = [] if ship_replay else [replay["replay"]["case"]] if replay else gen(seed, tier)
     outs_all, corr_all, orac_all = None, [], []
     seeds = ["0"] if replay else (["0", "1", "4242"] if tier == "quick" else ["0", "1", "7", "99", "4242", "31337"])
-    for hs in seeds:
+    for hs in (seeds if cases else []):
         outs, corr, orac = flow.differential(chk, "grammar", cases, to_coq, gc.IMPORTS, run_fn="run_c05", describe=describe,
                                               component=f"grammar analysis (PYTHONHASHSEED={hs})", kind=lambda c: str(c["decl"]["xdepth"]), chunk=60,
                                               hashseed=hs, coq_regions=("F10", "F35"))
@@ -131,7 +180,8 @@ def run(tier, seed, replay=None):
             for t in cl["fields"]:
                 forms[t[0]] = forms.get(t[0], 0) + 1
     cov = {
-        "evaluations": len(cases) * len(seeds),
+        "shipped_grammars": shipped_cov,
+        "evaluations": len(cases) * len(seeds) + ((shipped_cov or {}).get("compared") or 0),
         "distinct_nontrivial": flow.distinct_nontrivial(cases, outs or [], nontrivial) if outs else 0,
         "traces_validated_against_impl": len(cases) * len(seeds),
         "correspondence_mismatches": len(corr_all), "oracle_failures": len(orac_all),
